@@ -204,6 +204,18 @@ static std::vector<W> values(std::mt19937_64& rng, int nrand)
     for (T x : { (T)0, (T)1.5, (T)-2.75, std::numeric_limits<T>::max(), std::numeric_limits<T>::denorm_min() }) {
       v.push_back(bits_of(x));
     }
+    // bit patterns that arithmetic would not leave alone: infinities, -0.0, quiet and SIGNALLING
+    // NaNs with payloads (a store / load moves bits, it does not compute)
+    if constexpr (sizeof(T) == 4) {
+      for (W b : { (W)0x7F800000, (W)0xFF800000, (W)0x80000000, (W)0x7FC00000, (W)0x7FA00000, (W)0xFFA00001, (W)0x7F800001 }) {
+        v.push_back(b);
+      }
+    } else {
+      for (unsigned long long b : { 0x7FF0000000000000ull, 0xFFF0000000000000ull, 0x8000000000000000ull, 0x7FF8000000000000ull,
+                                    0x7FF4000000000000ull, 0xFFF4000000000001ull, 0x7FF0000000000001ull }) {
+        v.push_back((W)b);
+      }
+    }
     return v;
   } else if constexpr (std::is_same_v<T, bool>) {
     return { 0, 1 };
@@ -742,6 +754,26 @@ static void ptr_tests(std::mt19937_64& rng, bool thorough)
       got = ta[1].UNSAFE_unverified();
     });
     ptr_event("array-copy", rw, got, r);
+    {
+      // a two-dimensional array of pointers loaded as a whole
+      static auto p2d = sb->malloc_in_sandbox<int* [2][2]>();
+      GP* c2d = reinterpret_cast<GP*>(p2d.UNSAFE_unverified());
+      c2d[0] = 8;
+      c2d[1] = 0;
+      c2d[2] = 16;
+      c2d[3] = rep;
+      r = guarded([&] {
+        tainted<int* [2][2], Sbx> t2 = *p2d;
+        got = t2[1][1].UNSAFE_unverified();
+        if (t2[0][0].UNSAFE_unverified() != (int*)(BASE + 8) || t2[0][1].UNSAFE_unverified() != nullptr ||
+            t2[1][0].UNSAFE_unverified() != (int*)(BASE + 16)) {
+          got = reinterpret_cast<const void*>(static_cast<uintptr_t>(0xBAD0BAD0)); // a neighbour came out wrong
+        }
+      });
+      ptr_event("array2d-copy", rw, got, r);
+      r = guarded([&] { got = (*p2d)[1][1].UNSAFE_unverified(); });
+      ptr_event("array2d-element", rw, got, r);
+    }
     *scell = rep;
     r = guarded([&] { got = ps->c.UNSAFE_unverified(); });
     ptr_event("struct-field", rw, got, r);
